@@ -32,6 +32,26 @@ UNITS = [
     B("clear+find+eq.bounded", "h_b_clear_find_eq", ["b_clear_find_eq.return"]),
     B("append_list.bounded", "h_b_append_list", ["b_append_list.return"]),
 ]
+# PoolList<T>: same step-contract scheme; the element lives behind the node header and is constructed in place
+PSRCS = ["harness/poollist.cpp", "contracts/poollist.c"]
+
+
+def P(name, entry, enforce=None, reach=(), **kw):
+    d = U(name, entry, enforce, reach, srcs=PSRCS, funcs=["PoolList<T>::" + name.split(".")[0]], **kw)
+    d["name"] = "PoolList." + name
+    return d
+
+
+RM = ["remove.middle", "remove.only"]
+UNITS += [
+    P("layout", "h_layout"),
+    P("append", "h_append", "w_PL_append", ["append.reuse", "append.new_block"], cbmc=["--unwind", "6", "--unwinding-assertions"]),
+    P("remove", "h_remove", "w_PL_remove", RM),
+    P("removeFront", "h_remove", "w_PL_removeFront", ["remove.only", "remove.first"], defs=["NV_RM_MODE=1"]),
+    P("removeBack", "h_remove", "w_PL_removeBack", ["remove.only", "remove.last"], defs=["NV_RM_MODE=2"]),
+    P("remove_value", "h_remove", "w_PL_removeValue", RM, defs=["NV_RM_MODE=3"]),
+    P("swap", "h_swap", "w_PL_swap", ["swap.empty_with_full", "swap.full_with_full"]),
+]
 TRUSTED = ["cbmc 6.11.0 / goto-instrument DFCC / CaDiCaL", "goto-cc C++ front end; List.hpp with compat rule R1"]
 ASSUMPTIONS = [
     "ONLY List is covered (Array and PoolList are not: Array<T>/PoolList<T> need class-typed T and explicit ->~T() calls goto-cc rejects)",
